@@ -580,6 +580,14 @@ def run_shard(spec, ctx):
                     ctx.sample({"ops": seq})
 
         if spec["i"] == 0:
+            # a legacy spelling first in valid_units, no default unit, the base unit not listed: the default unit is derived
+            # from the list *as rewritten*; copies made with from_category inherit it
+            pre = [OPS[0], OPS[1], OPS[7]]
+            for vu in (["lbmole"], ["lbmole", "cm"], ["cm", "lbmole"], ["lbmole", "m"]):
+                for tail in ([], [["cat", "lcopy", {"from_category": "lderived"}]], [["cat", "lcopy", {"from_category": "lderived", "override": True, "valid_units": ["lbmole"]}]]):
+                    run_history(ctx, pre + [["cat", "lderived", {"quantity_type": "L", "valid_units": list(vu)}]] + tail, rec)
+                    total += 1
+                    ctx.cls("histories_with_default_unit_derived_from_legacy_spelling")
             # default values exactly on, and a hair beside, inclusive and exclusive limits (the comparison is exact)
             for e in EDGE_CATS:
                 for prefix in ([OPS[0]], [OPS[0], OPS[9], OPS[11]]):
